@@ -792,6 +792,15 @@ func genSweep(t *rapid.T) mutCase {
 		mm := m
 		mm.Kind = f.kinds[k%len(f.kinds)]
 		mm.Inner = inner && f.inner
+		if f.name == "labelmap/raw" {
+			// the body travels plain, gzip- or lz4-compressed, each with its own length checks: sweep all three
+			for _, a := range []int{0, 4, 6} {
+				b := base
+				b.A = a + base.A%2
+				c.Reqs = append(c.Reqs, steer(hreq{Fam: f.name, Base: b, Mut: mm}))
+			}
+			continue
+		}
 		c.Reqs = append(c.Reqs, steer(hreq{Fam: f.name, Base: base, Mut: mm}))
 	}
 	return c
